@@ -18,7 +18,7 @@ pub fn verif_lossy_string(b: &[u8]) -> (r: String)
 @@ struct pp Buffer
 @@ impl pp Buffer : new remaining size empty get_u8 peek_u8 get_bytes get_buffer get_vec get_be16 get_be32 get_ipv4 get_tlv get_label get_domain get_domains
 
-@@ subst *
+@@ subst * opt
 pktparser::
 =>
 
